@@ -7,6 +7,7 @@ import (
 	"fmt"
 	"io"
 	"reflect"
+	"sort"
 	"time"
 	"unicode/utf8"
 
@@ -309,6 +310,10 @@ func (e *encoder) encodeFile(file reflect.Value) error {
 						for _, f := range mfields {
 							def.fields = append(def.fields, f)
 						}
+						// Map iteration order is random: fix the field order.
+						sort.Slice(def.fields, func(a, b int) bool {
+							return def.fields[a].num < def.fields[b].num
+						})
 						err := e.writeDefMesg(def)
 						if err != nil {
 							return err
